@@ -5,6 +5,7 @@ import (
 	"fmt"
 	"io"
 	"reflect"
+	"runtime"
 	"strings"
 	"time"
 
@@ -298,6 +299,29 @@ func c06Boundary(c *rt.Ctx, entries []c06Entry, L int) {
 				t := pad(lead, " ") + strings.Replace(d[1], pad(lead, string(d[1][len(d[1])/2])), "", 1)
 				if len(t) == L {
 					if !c06RunTimed(c, sub, entries, []byte(t), fmt.Sprintf("boundary:%s total-length=%d lead=%d", d[0], L, lead)) {
+						return
+					}
+					sub++
+				}
+			}
+		}
+	}
+	// texts of exactly L bytes that end inside a token, with fresh and with grown pooled buffers
+	// (the scratch copies of the utilities have capacity 1024, then what append grows them to)
+	const bs = "\\"
+	for ei, end := range []string{"t", "tr", "tru", "f", "fa", "fal", "fals", "n", "nu", "nul", "-", "1.", "1e", `"`, `"a`, `"` + bs, `"` + bs + "u", `"` + bs + "u00", `"` + bs + "ud83d" + bs, "[", "[1,", `{"a"`, `{"a":`} {
+		for d := -3; d <= 1; d++ {
+			for _, two := range []int{1024, 2048, 4096} {
+				n := two + d
+				if n < L-8 || n > L+8 || n < len(end)+2 {
+					continue
+				}
+				for pi, lead := range []string{strings.Repeat(" ", n-len(end)), "[" + strings.Repeat(" ", n-len(end)-1), `["` + strings.Repeat("p", n-len(end)-4) + `",`} {
+					if (ei+pi)%2 == 0 {
+						runtime.GC()
+						runtime.GC()
+					}
+					if !c06RunTimed(c, sub, entries, []byte(lead+end), fmt.Sprintf("boundary:cut-token total-length=%d end=%q", n, end)) {
 						return
 					}
 					sub++
